@@ -241,3 +241,12 @@ Proof.
          (Ast.WRIdent (rb_ident (L"w"))), rb_items, w', wb'.
   repeat (split; [assumption || reflexivity|]). intros [_ Hx]. apply R2_keys in Hx. rewrite Ke, Ke' in Hx. discriminate.
 Qed.
+
+(** the conclusion of [resolve_document_sim] with one common fuel: the unfolded definitions ARE the denotation *)
+Lemma resolve_document_trees ext eext t0 d s :
+  flat t0 -> Renv t0 ext eext -> include_safe eext d = true -> resolve_document ext t0 d = DOk s ->
+  exists F defs, den_document eext d = Some defs /\ defs_trees F (resolve_document ext t0 d) = Some defs.
+Proof.
+  intros Hf He Hok H. destruct (resolve_document_sim _ _ _ _ _ Hf He Hok H) as [_ [defs [D R]]].
+  destruct (Rexts_collect _ _ _ R) as [F HF]. exists F, defs. rewrite H. cbn [defs_trees]. auto.
+Qed.
